@@ -296,7 +296,7 @@ package drpcstream
 //@   site (*Writer).WriteFrame assert [C01.frame-data] arr(arg1.Data) == arr(data0) && off(arg1.Data) == off(data0) + emitted && len(arg1.Data) >= 0
 //@   site (*Writer).WriteFrame assert [C01.frame-done] arg1.Done == (emitted + len(arg1.Data) == len(data0))
 //@   loop 1 invariant [tile] arr(data) == arr(data0) && off(data) == off(data0) + emitted && len(data) == len(data0) - emitted && 0 <= emitted && emitted <= len(data0)
-//@   loop 1 invariant [hdr]  fr.ID.Stream == s.id.Stream && fr.ID.Message == s.id.Message && s.id.Message == old(s.id.Message) + 1 && s.id.Stream == old(s.id.Stream) && fr.Kind == kind0 && !fr.Control && kind == kind0 && s == s0 && n == s.opts.SplitSize && s.wr != nil && s.wr.w != nil && 0 <= frames && (frames > 0 ==> len(data) > 0)
+//@   loop 1 invariant [hdr]  fr.ID.Stream == s.id.Stream && fr.ID.Message == s.id.Message && s.id.Message == old(s.id.Message) + 1 && s.id.Stream == old(s.id.Stream) && fr.Kind == kind0 && !fr.Control && kind == kind0 && s == s0 && s.wr != nil && s.wr.w != nil && 0 <= frames && (frames > 0 ==> len(data) > 0)
 //@   loop 1 decreases len(data) + ite(frames == 0, 1, 0)
 //@   assumes "the send and term signals of a stream are only ever set with non-nil errors (asserted at every Set call site of this package: [nonnil-set] clauses)"
 //@   site (*Signal).Err assumeafter [nonnil] ret != nil
